@@ -320,15 +320,7 @@ func checkDeliverDelete(l *core.Ledger, r *rt, rm *routerModel, rule string, err
 				q.BlockEdge = nil
 			} else {
 				// forwarded response: the exemption needs an err == nil edge as well
-				var nilEdges []sx.Edge
-				isRespErr := func(o sx.Origin) bool {
-					return o.Kind == sx.KField && o.Field != nil && o.Field.Name() == "err" && sx.All(o.Base, func(b sx.Origin) bool { return b.Kind == sx.KParam })
-				}
-				sx.AllInstrs(d.fn, func(_ sx.Node, in ssa.Instruction) {
-					if ifi, ok := in.(*ssa.If); ok && isErrNonNil(ifi, isRespErr) != 0 {
-						nilEdges = append(nilEdges, errEdge(ifi, isRespErr, false))
-					}
-				})
+				nilEdges := nilTestEdgesOn(d.fn, func(v ssa.Value) bool { return loadsFieldOfParam(v, "err") }, false)
 				q.BlockEdge = func(e sx.Edge) bool { return edgeIn(e, nilEdges) }
 			}
 		}
